@@ -31,10 +31,11 @@ ASSUMPTIONS = [
 
 @st.composite
 def build_case(draw):
-    o = gens.opts(max_fields=7, max_depth=1, eof=False, signed_flags=False, unions=draw(st.booleans()))
-    case = draw(gens.input_case(o, tail=False))
+    root_union = draw(st.integers(0, 5)) == 0  # the structure being extended is a union (same add_field / commit machinery)
+    o = gens.opts(max_fields=7, max_depth=1, eof=False, signed_flags=False, unions=draw(st.booleans()), dynamic=not root_union)
+    case = draw(gens.input_case(o, tail=False, root_kind="union" if root_union else "struct"))
     root = [d for d in case["defs"] if d["n"] == "Root"][0]["t"]
-    selfref = draw(st.integers(0, 3)) == 0
+    selfref = draw(st.integers(0, 3)) == 0 and not root_union
     if selfref:
         extra = [{"name": "next", "t": {"k": "p", "t": {"k": "ref", "n": "Root"}}, "bits": None}]
         if draw(st.booleans()):
@@ -118,6 +119,10 @@ def run_case(case, ctx):
         raise Violation("definition-rejected", f"{text}: {r}", r.where)
     A = cs.Root
     builds = {"text-struct": A}
+    is_union = issubclass(A, m.Union)
+    make = cs._make_union if is_union else cs._make_struct
+    if is_union:
+        ctx.count("root:union")
     desc = lambda extra=None: common.describe(case, dict({"split": case["split"]}, **(extra or {})))  # noqa: E731
     selfref = case["selfref"]
     if not selfref:
@@ -125,21 +130,21 @@ def run_case(case, ctx):
         root_def = [d for d in case["defs"] if d["n"] == "Root"][0]
         others = [d for d in case["defs"] if d["n"] != "Root"]
         body = "".join(libside.render_field(f) for f in root_def["t"]["fields"])
-        text_b = libside.render(others) + f"typedef struct {{\n{body}}} Root;\n"
+        text_b = libside.render(others) + f"typedef {'union' if is_union else 'struct'} {{\n{body}}} Root;\n"
         cs_b = m.cstruct(endian=cfg["endian"], pointer=cfg["ptr"])
         r = lib(cs_b.load, text_b, compiled=compiled, align=align)
         if isinstance(r, Err):
             raise Violation("definition-rejected", f"typedef form: {text_b}: {r}", r.where)
         builds["text-typedef"] = cs_b.Root
         # (c) API one-shot
-        C = lib(cs._make_struct, "RootC", _fresh_fields(m, A.__fields__), align=align)
+        C = lib(make, "RootC", _fresh_fields(m, A.__fields__), align=align)
         if isinstance(C, Err):
             raise Violation("api-one-shot-raised", f"_make_struct raised {C}: {desc()}", C.where)
         if compiled:
             C = compiler.compile(C)
         builds["api-one-shot"] = C
     # (d) API incremental
-    D = cs._make_struct("RootD", [], align=align)
+    D = make("RootD", [], align=align)
     if compiled:
         D = compiler.compile(D)
     src = list(A.__fields__)
@@ -174,7 +179,7 @@ def run_case(case, ctx):
             raise Violation("incremental-build-raised", f"adding fields {[f.name for f in batch]} (start_update={block}) raised {r}: {desc()}", r.where)
         # every intermediate state equals the one-shot class of that prefix
         if not selfref:
-            P = lib(cs._make_struct, "Prefix", _fresh_fields(m, src[:i]), align=align)
+            P = lib(make, "Prefix", _fresh_fields(m, src[:i]), align=align)
             if isinstance(P, Err):
                 raise Violation("api-one-shot-raised", f"_make_struct(prefix of {i}) raised {P}: {desc()}", P.where)
             if compiled:
@@ -260,7 +265,7 @@ def run_case(case, ctx):
                 raise Violation("instance-behaviour-differs", f"{name}: two parses of the same bytes are not equal: {desc({'construction': name})}")
         # the generated __eq__ / __bool__ look at EVERY field, the last one included
         lastf = T.__fields__[-1] if T.__fields__ else None
-        if lastf is not None and not lastf.bits:
+        if lastf is not None and not lastf.bits and not is_union:  # (a union's members are views of one buffer: C11's subject)
             zero = lib(T)
             lv = None if isinstance(zero, Err) else getattr(zero, lastf._name, None)
             if isinstance(lv, int) and not isinstance(lv, bool) and int(lv) == 0 and not hasattr(type(lv), "__members__"):
